@@ -94,8 +94,21 @@ def rule_golay(repo: Repo, rep: Report, thorough: bool) -> int:
         rep.undecided("GOLAY", md, "advertised distance", f"{len(r)} returns")
     init = repo.method(ci, "__init__")
     vals = {attr_chain(s.targets[0]): unparse(s.value) for s in stmts_of(init.body) if isinstance(s, ast.Assign) and attr_chain(s.targets[0])}
-    ok = vals.get("self._theoretical_length") == "24 if extended else 23" and vals.get("self._theoretical_dimension") == "12" and vals.get("self._error_correction_capability") == "3"
-    rep.check(ok, "GOLAY", init, f"advertised n={vals.get('self._theoretical_length')}, k={vals.get('self._theoretical_dimension')}, t={vals.get('self._error_correction_capability')}", "(23|24, 12), t = 3 = floor((7-1)/2)", "advertised Golay parameters are not (23|24, 12, t=3)")
+    # advertised parameters evaluated with own arithmetic for both variants
+    assigns_ = {attr_chain(s.targets[0]): s.value for s in stmts_of(init.body) if isinstance(s, ast.Assign) and attr_chain(s.targets[0])}
+    got_par = {}
+    evaluable = True
+    for ext in (False, True):
+        for key in ("self._theoretical_length", "self._theoretical_dimension", "self._error_correction_capability"):
+            try:
+                got_par[(ext, key)] = Folder({"extended": ext}, {"self._extended": ext}, lambda t, ext=ext: ext if unparse(t) in ("extended", "self._extended") else (not ext if unparse(t) in ("not extended", "not self._extended") else None)).fold(assigns_[key]) if key in assigns_ else None
+            except Unfoldable:
+                evaluable = False
+    want_par = {(ext, "self._theoretical_length"): 24 if ext else 23 for ext in (False, True)}
+    want_par.update({(ext, "self._theoretical_dimension"): 12 for ext in (False, True)})
+    want_par.update({(ext, "self._error_correction_capability"): 3 for ext in (False, True)})
+    ok = evaluable and got_par == want_par
+    rep.shape(ok, evaluable and not ok and None not in got_par.values(), "GOLAY", init, f"advertised n={vals.get('self._theoretical_length')}, k={vals.get('self._theoretical_dimension')}, t={vals.get('self._error_correction_capability')}", "(23|24, 12), t = 3 = floor((7-1)/2)", "advertised Golay parameters are not (23|24, 12, t=3)")
     n += 2
     # generator polynomial constant
     mi = repo.module(GOLAY)
@@ -281,7 +294,7 @@ def rule_formulas(repo: Repo, rep: Report) -> int:
     rep.floor("BCH t definitions", len(a), 1)
     md = repo.method(ci, "minimum_distance")
     r = returns_of(md.node)
-    rep.check(len(r) == 1 and unparse(r[0].value) == "self._delta", "FORMULA", md, f"BCH advertised distance: {unparse(r[0].value) if r else '?'}", "the design distance (BCH bound: true d >= delta)", "BCH advertises something other than its design distance")
+    rep.shape(len(r) == 1 and unparse(r[0].value) in ("self._delta", "self.delta"), len(r) == 1 and (isinstance(r[0].value, (ast.BinOp, ast.Constant)) or (isinstance(r[0].value, ast.Attribute) and "delta" not in r[0].value.attr)), "FORMULA", md, f"BCH advertised distance: {unparse(r[0].value) if r else '?'}", "the design distance (BCH bound: true d >= delta)", "BCH advertises something other than its design distance")
     n += 1
     gp = repo.func(BCH, "compute_bch_generator_polynomial")
     loops = [s_ for s_ in stmts_of(gp.body) if isinstance(s_, ast.For)]
@@ -415,13 +428,24 @@ def rule_cyclic_layout(repo: Repo, rep: Report) -> int:
     n += 1
     # divisibility validation of g
     chk = [s for s in stmts_of(init.body) if isinstance(s, ast.If) and unparse(s.test) == "remainder.value != 0" and any(isinstance(x, ast.Raise) for x in s.body)]
-    rep.check(len(chk) >= 2, "CYCLIC-LAYOUT", init, f"{len(chk)} checks `remainder.value != 0 -> raise`", "generator / check polynomial must divide X^n + 1", "a polynomial that does not divide X^n+1 is no longer rejected")
+    weak = [s for s in stmts_of(init.body) if isinstance(s, ast.If) and any(isinstance(x, ast.Raise) for x in s.body) and isinstance(s.test, ast.BoolOp) and isinstance(s.test.op, ast.And) and any(unparse(v_) == "remainder.value != 0" for v_ in s.test.values)]
+    rep.shape(len(chk) >= 2, bool(weak), "CYCLIC-LAYOUT", init, f"{len(chk)} checks `remainder.value != 0 -> raise`", "generator / check polynomial must divide X^n + 1", "a polynomial that does not divide X^n+1 is no longer rejected")
     mod = [s for s in stmts_of(init.body) if isinstance(s, ast.Assign) and attr_chain(s.targets[0]) == "self._modulus_value"]
     s, d, _ = classify(mod[0].value, ["BinaryPolynomial(1 << code_length).value | 1", "1 << code_length | 1"], int_context=True) if mod else (UNDECIDED, "", None)
     rep.add("CYCLIC-LAYOUT", init, f"modulus X^n + 1 = {unparse(mod[0].value) if mod else '?'}", s, d)
     n += 2
     dims = {attr_chain(s.targets[0]): unparse(s.value) for s in stmts_of(init.body) if isinstance(s, ast.Assign) and attr_chain(s.targets[0]) in ("self._redundancy", "self._dimension")}
-    rep.check(dims.get("self._redundancy") == "self._generator_poly.degree" and dims.get("self._dimension") == "code_length - self._redundancy", "CYCLIC-LAYOUT", init, f"m = {dims.get('self._redundancy')}, k = {dims.get('self._dimension')}", "m = deg g, k = n - m", "advertised redundancy / dimension are not deg g and n - deg g")
+    dvals = {attr_chain(s.targets[0]): s.value for s in stmts_of(init.body) if isinstance(s, ast.Assign) and attr_chain(s.targets[0]) in ("self._redundancy", "self._dimension")}
+    dim_ok = dims.get("self._redundancy") == "self._generator_poly.degree" and dims.get("self._dimension") == "code_length - self._redundancy"
+    dim_wrong = False
+    if not dim_ok and len(dvals) == 2:
+        try:
+            m_ = Folder({"code_length": 7}, {"self._generator_poly.degree": 3, "self._length": 7}).fold(dvals["self._redundancy"])
+            k_ = Folder({"code_length": 7}, {"self._generator_poly.degree": 3, "self._redundancy": m_, "self._length": 7}).fold(dvals["self._dimension"])
+            dim_ok, dim_wrong = (m_, k_) == (3, 4), (m_, k_) != (3, 4)
+        except Unfoldable:
+            pass
+    rep.shape(dim_ok, dim_wrong, "CYCLIC-LAYOUT", init, f"m = {dims.get('self._redundancy')}, k = {dims.get('self._dimension')}", "m = deg g, k = n - m", "advertised redundancy / dimension are not deg g and n - deg g")
     n += 1
     # advertised distance of a generic cyclic code
     md = repo.func(CYC, "CyclicCodeEncoder.minimum_distance")
